@@ -1239,3 +1239,64 @@ def unit_rootopts(inj, scratch):
     s = src(rel, scratch)
     inj.append(rel, H('parser.kani.rs'))
     return dict(functions=[fn_record(s, 'parse_root_options', 'K', impl='Parser', how='whole real function on concrete token vectors in an appended harness')], dropped=[])
+
+
+# --------------------------------------------------------------------------------------------------
+# capabilities.rs: bit -> name table, flag letters (C04)
+# --------------------------------------------------------------------------------------------------
+LINUX_CAPS = ['cap_chown', 'cap_dac_override', 'cap_dac_read_search', 'cap_fowner', 'cap_fsetid', 'cap_kill', 'cap_setgid', 'cap_setuid',
+              'cap_setpcap', 'cap_linux_immutable', 'cap_net_bind_service', 'cap_net_broadcast', 'cap_net_admin', 'cap_net_raw', 'cap_ipc_lock',
+              'cap_ipc_owner', 'cap_sys_module', 'cap_sys_rawio', 'cap_sys_chroot', 'cap_sys_ptrace', 'cap_sys_pacct', 'cap_sys_admin',
+              'cap_sys_boot', 'cap_sys_nice', 'cap_sys_resource', 'cap_sys_time', 'cap_sys_tty_config', 'cap_mknod', 'cap_lease',
+              'cap_audit_write', 'cap_audit_control', 'cap_setfcap', 'cap_mac_override', 'cap_mac_admin', 'cap_syslog', 'cap_wake_alarm',
+              'cap_block_suspend', 'cap_audit_read', 'cap_perfmon', 'cap_bpf', 'cap_checkpoint_restore']
+
+
+def unit_caps(inj, scratch):
+    rel = 'src/util/capabilities.rs'
+    s = src(rel, scratch)
+    it = s.fn('parse_capabilities')
+    body_m = s.mask[it['open']:it['close']]
+    body_t = s.text[it['open']:it['close']]
+    hi = re.search(r'if\s+caps\.len\(\)\s*>=\s*20\s*\{', body_m)
+    if not hi:
+        raise AnchorLost('parse_capabilities: `if caps.len() >= 20 {` not found')
+    calls = [(m.start(), m.group(1), re.sub(r'\s+', ' ', m.group(2)).strip())
+             for m in re.finditer(r'check_cap!\(\s*(\w+)\s*,\s*([^,]+?)\s*,\s*permitted\s*,\s*inherited\s*,\s*effective\s*,\s*result\s*\)', body_m)]
+    if len(calls) < 30:
+        raise AnchorLost(f'parse_capabilities: only {len(calls)} check_cap! invocations of the expected shape')
+    low = [(n, c) for (p, n, c) in calls if p < hi.start()]
+    high = [(n, c) for (p, n, c) in calls if p > hi.start()]
+    slices = re.findall(r'let\s+(permitted|inherited)\s*=\s*u32::from_le_bytes\(caps\[(\d+)\.\.(\d+)\]\.try_into\(\)\.unwrap\(\)\);', re.sub(r'[ \t]+', ' ', body_m))
+    mac = s.find_one(r'macro_rules!\s*check_cap\s*\{', None, what='macro_rules! check_cap')
+    mo = mac.end() - 1
+    mtext = re.sub(r'\s+', ' ', s.text[mo:s.match_close(mo) + 1])
+    want = ('{ ($cap_name: ident, $code: expr, $permitted: ident, $inherited: ident, $effective: ident, $result: ident) => { '
+            'if let Some(str_result) = check_capability($permitted, $inherited, 1 << $code) { '
+            '$result.push(stringify!($cap_name).to_owned() + "=" + &$effective + &str_result); } }; }')
+    if mtext != want:
+        raise AnchorLost('macro check_cap! changed shape (expected: bit = 1 << code, text = name "=" effective flags)')
+    eff = re.search(r'let\s+effective\s*=\s*if\s+(.*?)\s*\{\s*String::from\("e"\)\s*\}\s*else\s*\{\s*String::new\(\)\s*\}\s*;', re.sub(r'\s+', ' ', body_t))
+    if not eff:
+        raise AnchorLost('parse_capabilities: effective flag expression changed shape')
+    gen = ['    pub const LOW: [(&str, u32); %d] = [%s];' % (len(low), ', '.join(f'("{n}", {c})' for n, c in low)),
+           '    pub const HIGH: [(&str, u32); %d] = [%s];' % (len(high), ', '.join(f'("{n}", {c})' for n, c in high)),
+           '    pub const SLICES: [(&str, usize, usize); %d] = [%s];' % (len(slices), ', '.join(f'("{a}", {b}, {c})' for a, b, c in slices)),
+           f'    pub fn frag_effective(caps: &[u8]) -> bool {{ {eff.group(1)} }}']
+    asserts = []
+    for i, name in enumerate(LINUX_CAPS):
+        tbl, k = ('LOW', i) if i < 32 else ('HIGH', i - 32)
+        asserts.append(f'        assert!({tbl}.len() > {k} && {tbl}[{k}].0 == "{name}" && {tbl}[{k}].1 == {k}, "OBL C04.caps.names: capability {i} is {name}");')
+    text = H('caps.kani.rs').replace('/*GENERATED_TABLES*/', '\n'.join(gen)).replace('/*GENERATED_ASSERTS*/', '\n'.join(asserts))
+    inj.append(rel, text)
+    r, d = frag_record('LOW / HIGH / SLICES tables, frag_effective', rel, 'fn parse_capabilities / every `check_cap!(name, code, ..)` invocation in order, split at `if caps.len() >= 20`; the `u32::from_le_bytes(caps[a..b]..)` slices; the effective-flag condition; macro check_cap! compared with its expected text',
+                       s.text_of(it)[:1200], '\n'.join(gen), [], 'Vec<String> building and join(" ")')
+    return dict(functions=[fn_record(s, 'check_capability', 'K', how='whole real function; postcondition asserted for all u32 triples with a single-bit capability'), r], dropped=[d])
+
+
+def unit_nameutils(inj, scratch):
+    rel = 'src/util/mod.rs'
+    s = src(rel, scratch)
+    inj.append(rel, H('nameutils.kani.rs'))
+    return dict(functions=[fn_record(s, 'has_extension', 'K', how='whole real function; postcondition asserted on bounded symbolic names'),
+                           fn_record(s, 'is_hidden', 'K', how='whole real function; postcondition asserted on bounded symbolic names')], dropped=[])
